@@ -15,7 +15,9 @@ from nutils import function, evaluable as ev, mesh
 import treelog
 
 PID = 'C13'
-ARGS = {'u': ((2,), float), 'v': ((2,), float), 'w': ((2,), float), 'p': ((), float), 'q': ((), float), 'c': ((3,), float), 'd': ((3,), float)}
+ARGS = {'u': ((2,), float), 'v': ((2,), float), 'w': ((2,), float), 'p': ((), float), 'q': ((), float), 'c': ((3,), float), 'd': ((3,), float),
+        'E': ((2, 3, 2), float), 'G': ((2, 3, 2), float), 'S': ((3, 2), float), 'V': ((3, 2), float)}   # multi-axis arguments with unequal leading lengths (index ravelling in Monomial/_Replace)
+DIRNAME = {'u': 'w', 'v': 'w', 'p': 'q', 'q': 'p', 'c': 'd', 'd': 'c', 'E': 'G', 'S': 'V'}
 def A(n): return function.Argument(n, ARGS[n][0], dtype=ARGS[n][1])
 
 _topo = None
@@ -27,9 +29,12 @@ def topo_geom():
 
 def functionals():
     u, v, w, p, q, c, d = (A(n) for n in 'uvwpqcd')
+    E, S = A('E'), A('S')
     t, g, basis = topo_geom()
     uh = basis @ c; vh = basis @ d
     F = dict(
+        tens=lambda: numpy.einsum('ijk,ijk,j->', E, E, c) * p + E[1, 2, 0] ** 3 + (E[0] * S).sum((0, 1)),
+        tensvec=lambda: numpy.einsum('ijk,jk->i', E, S) * u + (S * S)[2] * E[1, 0, 1],
         quad=lambda: (u * u).sum() * p + q,
         bilin=lambda: u @ v + p * q,
         cubic=lambda: u ** 3 + v * p,
@@ -79,9 +84,12 @@ def cases(tier):
         C.append(('spellings', name, 0))
     # --- linearize / derivative / factor
     for name in F:
-        for target in ('u', 'v', 'p', 'c', 'd', 'q'):
+        for target in ('u', 'v', 'p', 'c', 'd', 'q', 'E', 'S'):
             C.append(('linearize', name, target)); C.append(('derivative', name, target))
         if name not in ('sin', 'ratio'): C.append(('factor', name, 0))
+        if name not in ('sin', 'ratio'):
+            for target in ('u', 'p', 'c', 'E', 'S'):
+                C.append(('lfactor', name, target)); C.append(('dfactor', name, target))
     C.append(('field', 'field', 0)); C.append(('field', 'field', 1))
     return C, R
 
@@ -167,21 +175,22 @@ def build_pairs(kind, name, k, F, R):
                     return ref, got, vals, d0
                 P = sym(run); ref, got, vals, d0 = P.value
                 out.append((f'{tag} spelling {i}: {type(sp).__name__}', (ref, got, vals, d0, P.pc, P.side, None)))
-    elif kind in ('linearize', 'derivative'):
+    elif kind in ('linearize', 'derivative', 'lfactor', 'dfactor'):
         f = F[name](); target = k
         if target not in names_of(f): raise NotApplicable
-        dirname = {'u': 'w', 'v': 'w', 'p': 'q', 'q': 'p', 'c': 'd', 'd': 'c'}[target]
-        if kind == 'linearize':
-            g = function.linearize(f, {target: dirname})
+        dirname = DIRNAME[target]
+        f_ = function.factor(f) if kind.endswith('factor') else f     # derivative of the factored form must be the derivative of f
+        if kind in ('linearize', 'lfactor'):
+            g = function.linearize(f_, {target: dirname})
         else:
-            g = function.derivative(f, target)
+            g = function.derivative(f_, target)
         allnames = sorted(set(names_of(f)) | set(names_of(g)) | {dirname})
         ef = ev_of(f)
         def run():
             vals = values(allnames)
             got = run_eval(g, {n: vals[n] for n in names_of(g)})
             d0 = list(ctx().defined)
-            if kind == 'derivative':
+            if kind in ('derivative', 'dfactor'):
                 dx = vals[dirname]; nd = dx.ndim
                 got = numpy.sum((got * dx).reshape(got.shape[:got.ndim - nd] + (-1,)), axis=-1) if nd else got * dx
             dvals = {n: vals[n] for n in names_of(f)}
@@ -189,7 +198,7 @@ def build_pairs(kind, name, k, F, R):
             r, _how = tv.reference_eval(ef, dvals)
             return dual.tangent(r), got, vals, list(ctx().defined)
         P = sym(run); ref, got, vals, d0 = P.value
-        out.append((f'd/d{target} in direction {dirname}', (ref, got, vals, d0, P.pc, P.side, 1e-9)))
+        out.append((f'd/d{target} in direction {dirname}', (ref, got, vals, d0, P.pc, P.side, 1e-9 if not kind.endswith('factor') else 1e-6)))
     elif kind == 'factor':
         f = F[name]()
         g = function.factor(f)
@@ -235,11 +244,12 @@ def replay(kind, name, k, label, cv):
             i = int(label.split('spelling ')[1].split(':')[0])
             if label.startswith('replace'): ref = E(function.replace_arguments(f, base), cv); got = E(function.replace_arguments(f, others[i]), cv)
             else: ref = E(function.linearize(f, base), cv); got = E(function.linearize(f, others[i]), cv)
-        elif kind in ('linearize', 'derivative'):
-            f = F[name](); target = k; dirname = {'u': 'w', 'v': 'w', 'p': 'q', 'q': 'p', 'c': 'd', 'd': 'c'}[target]
-            g = function.linearize(f, {target: dirname}) if kind == 'linearize' else function.derivative(f, target)
+        elif kind in ('linearize', 'derivative', 'lfactor', 'dfactor'):
+            f = F[name](); target = k; dirname = DIRNAME[target]
+            f_ = function.factor(f) if kind.endswith('factor') else f
+            g = function.linearize(f_, {target: dirname}) if kind in ('linearize', 'lfactor') else function.derivative(f_, target)
             got = E(g, cv); d = numpy.asarray(cv[dirname], dtype=float)
-            if kind == 'derivative': got = numpy.tensordot(got, d, axes=d.ndim) if d.ndim else got * d
+            if kind in ('derivative', 'dfactor'): got = numpy.tensordot(got, d, axes=d.ndim) if d.ndim else got * d
             errs = []
             for h in (1e-4, 1e-5, 1e-6):
                 ap = dict(cv); am = dict(cv); ap[target] = numpy.asarray(cv[target]) + h * d; am[target] = numpy.asarray(cv[target]) - h * d
